@@ -176,12 +176,22 @@ def run_invalid(rng, ctx, pytrs):
             fn = lambda: pytrs.Config(prefix + name)
     elif kind == 'bad-direction-config':
         which = rng.choice(['ns', 'ew'])
-        val = rng.choice(['x', 'q', 'z', 'up', '7'])
-        if which == 'ns' and val[0] in 'ns':
+        val = rng.choice(['x', 'q', 'z', 'up', '7', '', ''])
+        if which == 'ns' and val[:1] in ('n', 's'):
             val = 'x'
-        case['arg'] = f"default_{which}.{val}"
+        sep = rng.choice('.=')
+        case['arg'] = f"default_{which}{sep}{val}"
         allowed = (DefaultNSError,) if which == 'ns' else (DefaultEWError,)
-        fn = lambda: pytrs.PLSSDesc(text, config=f"default_{which}.{val}")
+        target = rng.choice(['plss', 'tract', 'config', 'from_kwargs'])
+        case['target'] = target
+        if target == 'plss':
+            fn = lambda: pytrs.PLSSDesc(text, config=case['arg'])
+        elif target == 'tract':
+            fn = lambda: pytrs.Tract(text, config=case['arg'])
+        elif target == 'config':
+            fn = lambda: pytrs.Config(case['arg'])
+        else:
+            fn = lambda: pytrs.Config.from_kwargs(**{f"default_{which}": val})
     elif kind == 'bad-direction-keyword':
         which = rng.choice(['ns', 'ew'])
         val = rng.choice(['x', 'q', 'north-ish', '7'])
